@@ -187,6 +187,11 @@ func child() {
 		syscall.RawSyscall(syscall.SYS_EXIT_GROUP, 0, 0, 0)
 	}
 	w[1] = 1
+	// this goroutine wired itself to its thread before the load (the only way to use a filter that is loaded without thread-sync):
+	// it still is, so an attempt to move it has no effect and the probes are issued by the thread that carries the filter
+	if probe.MigrateAway() {
+		w[8] = 1
+	}
 	w[0] = 2
 	w[6] = uint32(syscall.Gettid())
 	for i := range probes {
